@@ -112,6 +112,14 @@ func (dc *TraditionalDnsConn) exchange(ctx context.Context, q []byte) (*[]byte, 
 	if err != nil {
 		// Write error usually is fatal. Abort and close this connection.
 		dc.CloseWithErr(fmt.Errorf("write err, %w", err))
+		// A reply may have been delivered while we were writing.
+		select {
+		case r := <-respChan:
+			orgId := binary.BigEndian.Uint16(q)
+			binary.BigEndian.PutUint16(*r, orgId)
+			return r, nil
+		default:
+		}
 		return nil, err
 	}
 
@@ -134,11 +142,27 @@ func (dc *TraditionalDnsConn) exchange(ctx context.Context, q []byte) (*[]byte, 
 wait:
 	select {
 	case <-ctx.Done():
+		// A reply may have been delivered before ctx was done.
+		select {
+		case r := <-respChan:
+			orgId := binary.BigEndian.Uint16(q)
+			binary.BigEndian.PutUint16(*r, orgId)
+			return r, nil
+		default:
+		}
 		return nil, context.Cause(ctx)
 	case <-resend:
 		err := dc.writeQuery(q, assignedQid)
 		if err != nil {
 			dc.CloseWithErr(fmt.Errorf("write err, %w", err))
+			// A reply may have been delivered while we were re-sending.
+			select {
+			case r := <-respChan:
+				orgId := binary.BigEndian.Uint16(q)
+				binary.BigEndian.PutUint16(*r, orgId)
+				return r, nil
+			default:
+			}
 			return nil, err
 		}
 		goto wait
